@@ -1,6 +1,7 @@
 import ZipVerif.Lemmas.Layers
 import ZipVerif.Lemmas.Crc32
 import ZipVerif.Lemmas.EntryBridge
+import ZipVerif.Lemmas.EntryBridgeAes
 /-
 C04 — A read that completes successfully returned uncorrupted data.
 Property theorems only; helper lemmas are in `Lemmas/Layers.lean` and `Lemmas/Crc32.lean`.
@@ -370,6 +371,108 @@ theorem stream_entry_sound (ext : Model.Ext) {fa : Option Nat} {d d' : Model.Dev
   · intro σ c hc inner s hin reqs b t e hr
     rw [hres, hb]
     exact Model.pipeline_eq_decode_crc ext f.method c _ _ _ hc inner s hin reqs hr
+
+/-- **C04 for WinZip-AES entries of every byte string accepted as an archive** (seekable reader,
+`by_index_decrypt`, the crate's own AES layer: `Model.cryptoExt`).  `by_index_decrypt(i, pw)` hands out entry `i`
+(encryption flag, AES extra record `(mode, vv)`) with read-to-end result `res`.  Then, for every short-read
+schedule `sched` of a reader holding the entry's stored bytes, `AesReader::validate` hands out `aesReader .. sc`, and
+(1) if `res` is a success: payload and authentication code are all there and the code IS the HMAC-SHA1 of the
+    payload under the key derived from `pw` and the salt (`aesCodeOk`: AE-1 and AE-2 alike), and for AE-1 the
+    bytes have the CRC-32 the central record declares (for AE-2 the format has no CRC; `make_reader` skips it);
+(2) call by call, ANY decoder behaviour `c` on top of `AesReaderValid`, ANY caller buffers: a loop over
+    `Crc32Reader(decoder(AesReaderValid))` that ends with a clean end-of-file has, for AE-1, returned bytes with
+    the declared CRC-32;
+(3) if the code is not the HMAC of the payload, or bytes are missing: `res` is an I/O error and no run - AES layer
+    or `ZipFile::read` with any error-propagating decoder and `finish_crypto` - reaches a successful end-of-file
+    (`Aes.NeverEof`): a completed read of an AE-2 entry has a verified MAC;
+(4) `AesVerdict`: the one-shot and the call-by-call descriptions agree (every finished loop returns `res` when
+    `c` is the decoder `ext` summarises on the decrypted stream). -/
+theorem archive_entry_sound_aes (P : Model.Aes.AesPrims) (hW : P.WF)
+    (decode : Model.Method → Bytes → Out Bytes) (bs : Bytes)
+    {fa₀ : Option Nat} {a : Model.Archive} {d₀ : Model.Dev}
+    (hopen : Model.openArchive fa₀ (Model.Dev.ofBytes bs) = (.ok a, d₀))
+    {i : Nat} {data : Model.FileData} (hfile : a.files[i]? = some data)
+    (henc : data.encrypted = true) {mode : Model.AesMode} {vv : Model.AesVendorVersion}
+    (haes : data.aesMode = some (mode, vv)) {pw : Bytes} {fa : Option Nat}
+    {d' : Model.Dev} {ds : Nat} {res : Out Bytes}
+    (h : Model.byIndexRead (Model.cryptoExt P decode) a i (some pw) fa d₀ = (.ok (.ok (ds, res)), d')) :
+    ∃ L, Model.Aes.dataLength (Model.aesModeView mode) data.compressedSize.toNat = some L ∧
+    ∀ sched : List Nat, ∃ sc,
+      Model.Aes.validate P Model.Aes.listSrc (Model.aesModeView mode) (some L)
+          ⟨(bs.drop ds).take data.compressedSize.toNat, sched⟩ pw =
+        (.ok (some (Model.aesReader P pw mode ((bs.drop ds).take data.compressedSize.toNat) L sc)),
+          ⟨Model.aesBody mode ((bs.drop ds).take data.compressedSize.toNat), sc⟩) ∧
+      (∀ content, res = .ok content →
+        L + Model.Aes.AUTH_CODE_LENGTH ≤
+          (Model.aesBody mode ((bs.drop ds).take data.compressedSize.toNat)).length ∧
+        Model.aesCodeOk P pw mode ((bs.drop ds).take data.compressedSize.toNat) L ∧
+        (vv = .ae1 → Crc32.crc32 content = data.crc32)) ∧
+      (∀ (c : Codec) (reqs : List Nat) (b : Bytes) (e : c.St (Model.Aes.Valid Model.Aes.ListSrc) × UInt32),
+        readToEnd (Model.entryPipelineAes c P Model.Aes.listSrc data.crc32 (vv == .ae2))
+          (c.init (Model.aesReader P pw mode ((bs.drop ds).take data.compressedSize.toNat) L sc), Crc32.init) reqs
+          = some (b, .eof, e) →
+        vv = .ae1 → Crc32.crc32 b = data.crc32) ∧
+      (¬ (L + Model.Aes.AUTH_CODE_LENGTH ≤
+            (Model.aesBody mode ((bs.drop ds).take data.compressedSize.toNat)).length ∧
+          Model.aesCodeOk P pw mode ((bs.drop ds).take data.compressedSize.toNat) L) →
+        (∃ k, res = .err (.io k)) ∧
+        Model.Aes.NeverEof P (Model.aesReader P pw mode ((bs.drop ds).take data.compressedSize.toNat) L sc)) ∧
+      Model.AesVerdict P (Model.cryptoExt P decode) data.method data.crc32 (vv == .ae2) pw mode
+        ((bs.drop ds).take data.compressedSize.toNat) L
+        (Model.aesReader P pw mode ((bs.drop ds).take data.compressedSize.toNat) L sc) res := by
+  have hbuf : d₀.buf = bs := by
+    have := Model.openArchive_readOnly.elim fa₀ (Model.Dev.ofBytes bs)
+    rw [hopen] at this; exact this
+  obtain ⟨ds', ⟨d1, hf1, _, _⟩, L, hdl, _, _, hA⟩ := Model.entry_bridge_aes hW hfile henc haes h
+  obtain ⟨ds2, d2, hf2, _, _, hr⟩ := Model.byIndexRead_aes_inv hfile henc haes h
+  have hds : ds' = ds := by
+    rw [hf1] at hf2
+    have e12 : ds' = ds2 := by injection hf2 with h1 _; injection h1
+    rcases hr with ⟨_, _, hh⟩ | ⟨_, hh⟩
+    · injection hh with hh; injection hh with hh _; rw [e12, hh]
+    · cases hh
+  subst hds
+  rw [hbuf] at hA
+  refine ⟨L, hdl, fun sched => ?_⟩
+  obtain ⟨_, sc, hv, hV⟩ := (hA sched).2 res rfl
+  refine ⟨sc, hv, ?_, ?_, fun hbad => hV.damaged hbad, hV⟩
+  · intro content hc
+    by_cases hgood : L + Model.Aes.AUTH_CODE_LENGTH ≤
+          (Model.aesBody mode ((bs.drop ds').take data.compressedSize.toNat)).length ∧
+        Model.aesCodeOk P pw mode ((bs.drop ds').take data.compressedSize.toNat) L
+    · refine ⟨hgood.1, hgood.2, fun hv1 => ?_⟩
+      obtain ⟨pt, cfin, _, hres, _⟩ := hV.intact hgood.1 hgood.2
+      subst hv1
+      rw [hres] at hc
+      cases hd : (Model.cryptoExt P decode).decode data.method pt with
+      | ok x =>
+        rw [hd] at hc
+        change Model.crcCheck false data.crc32 x = .ok content at hc
+        unfold Model.crcCheck at hc
+        split at hc
+        · cases hc
+        · rename_i hne
+          cases hc
+          simpa using hne
+      | err e => rw [hd] at hc; cases hc
+      | panic s => rw [hd] at hc; cases hc
+    · obtain ⟨⟨k, hk⟩, _⟩ := hV.damaged hgood
+      rw [hk] at hc; cases hc
+  · intro c reqs b e hr hv1
+    subst hv1
+    rcases entry_read_sound (c.layer (Model.aesSrc P Model.Aes.listSrc)) data.crc32 false _ reqs hr with h1 | h1
+    · cases h1
+    · exact h1
+
+/-- The hypotheses of `archive_entry_sound_aes` on a concrete archive (`Model.aesExArchive`, AE-2: no CRC, the MAC
+decides), and the two outcomes: intact - content handed out, same bytes call by call; one ciphertext byte
+changed - accepted as an archive, but neither description reads the entry to a successful end. -/
+example :
+    Model.aesOpenRead Model.aesExArchive [0x70, 0x77] [0, 2] [2, 0, 1, 9, 9] =
+      some (42, some [1, 2, 3, 4, 5], some [1, 2, 3, 4, 5]) ∧
+    Model.aesOpenRead (Model.aesExArchive.set 53 0) [0x70, 0x77] [0, 2] [2, 0, 1, 9, 9] = some (42, none, none) ∧
+    Model.exPrims.WF :=
+  ⟨by decide +kernel, by decide +kernel, Model.exPrims_wf⟩
 
 /-! ## Non-vacuity -/
 
